@@ -40,8 +40,8 @@ if cmd == "add":
         r = json.load(open(p))
         if only and os.path.basename(p)[:-5] not in only:
             continue
-        if (pid, r["signature"]) in have:
-            continue
+        if (pid, r["signature"]) in have or r["signature"].endswith("|input-not-in-known-witness-set"):
+            continue  # new inputs of a listed signature are merged by addset, they are not new entries
         d["findings"].append({"property": pid, "status": "known", "signature": r["signature"],
                               "what": str(r.get("message") or "")[:300].replace("\n", " "), "site": "",
                               "witness": r["case"]})
